@@ -134,6 +134,6 @@ def minimise_table(table, target_length,
 
 def _identity(table, target_length):
     """Identity minimisation function."""
-    if target_length is None or len(table) < target_length:
+    if target_length is None or len(table) <= target_length:
         return table
     raise MinimisationFailedError(target_length, len(table))
